@@ -781,3 +781,104 @@ func init() {
 	addControl(control{Prop: "C03", Name: "overflow-recorded-then-cleared", Rule: "R03c", Kind: "mutant",
 		File: "reify.go", Old: riOld, New: strings.Replace(riNew, "	if err != nil {\n		return reflect.Value{}, raiseConversion(opts.opts, val, err, \"int\")", "	if err != nil && err != ErrOverflow {\n		return reflect.Value{}, raiseConversion(opts.opts, val, err, \"int\")", 1), Expect: "R03c/ucfg.reifyInt"})
 }
+
+func init() {
+	vpOld := "	if err := runValidators(v.Interface(), opts.validators); err != nil {\n		return reflect.Value{}, raiseValidation(val.Context(), val.meta(), \"\", err)\n	}\n\n	if err := tryValidate(v); err != nil {\n		return reflect.Value{}, raiseValidation(val.Context(), val.meta(), \"\", err)\n	}\n\n	return pointerize(t, baseType, chaseValuePointers(v)), nil\n}\n"
+	vpNew := "	if err := validatePrimitive(opts, val, v); err != nil {\n		return reflect.Value{}, err\n	}\n\n	return pointerize(t, baseType, chaseValuePointers(v)), nil\n}\n\nfunc validatePrimitive(opts fieldOptions, val value, v reflect.Value) Error {\n	if err := runValidators(v.Interface(), opts.validators); err != nil {\n		return raiseValidation(val.Context(), val.meta(), \"\", err)\n	}\n	if err := tryValidate(v); err != nil {\n		return raiseValidation(val.Context(), val.meta(), \"\", err)\n	}\n	return nil\n}\n"
+	addControl(control{Prop: "C04", Name: "primitive-validation-in-a-helper", Rule: "R04b", Kind: "refactor", Quick: true,
+		File: "reify.go", Old: vpOld, New: vpNew})
+	addControl(control{Prop: "C04", Name: "primitive-validation-in-a-helper-skips-validate", Rule: "R04b", Kind: "mutant",
+		File: "reify.go", Old: vpOld, New: strings.Replace(vpNew, "	if err := tryValidate(v); err != nil {\n		return raiseValidation(val.Context(), val.meta(), \"\", err)\n	}\n	return nil\n", "	if len(opts.validators) > 0 {\n		return nil\n	}\n	if err := tryValidate(v); err != nil {\n		return raiseValidation(val.Context(), val.meta(), \"\", err)\n	}\n	return nil\n", 1), Expect: "R04b/ucfg.reifyPrimitive"})
+}
+
+func init() {
+	// accessField with its result in a local that stays zero until the field is accepted
+	edits := []edit{
+		{"util.go", "	if rune, _ := utf8.DecodeRuneInString(stField.Name); !unicode.IsUpper(rune) {\n		return fieldInfo{}, true, nil\n	}\n	name, tagOpts := parseTags(stField.Tag.Get(opts.tag))\n	if tagOpts.ignore {\n		return fieldInfo{}, true, nil\n	}\n", "	if rune, _ := utf8.DecodeRuneInString(stField.Name); !unicode.IsUpper(rune) {\n		return info, true, nil\n	}\n	name, tagOpts := parseTags(stField.Tag.Get(opts.tag))\n	if tagOpts.ignore {\n		return info, true, nil\n	}\n"},
+		{"util.go", "	return fieldInfo{\n		name:          fieldName(name, stField.Name),\n		ftype:         stField.Type,\n		value:         structVal.Field(fieldIdx),\n		options:       opts,\n		tagOptions:    tagOpts,\n		validatorTags: validators,\n	}, false, nil\n", "	info.name = fieldName(name, stField.Name)\n	info.ftype = stField.Type\n	info.value = structVal.Field(fieldIdx)\n	info.options = opts\n	info.tagOptions = tagOpts\n	info.validatorTags = validators\n	return info, false, nil\n"},
+	}
+	addControl(control{Prop: "C13", Name: "field-info-in-a-local", Rule: "R13c", Kind: "refactor",
+		File: "util.go", Old: "	stField := structVal.Type().Field(fieldIdx)\n\n	// ignore non exported fields\n", New: "	var info fieldInfo\n	stField := structVal.Type().Field(fieldIdx)\n\n	// ignore non exported fields\n", More: edits})
+	addControl(control{Prop: "C13", Name: "field-info-in-a-local-filled-early", Rule: "R13c", Kind: "mutant",
+		File: "util.go", Old: "	stField := structVal.Type().Field(fieldIdx)\n\n	// ignore non exported fields\n", New: "	var info fieldInfo\n	stField := structVal.Type().Field(fieldIdx)\n	info.ftype = stField.Type\n\n	// ignore non exported fields\n", More: edits, Expect: "R13c/ucfg.accessField/skip returns nothing"})
+}
+
+func init() {
+	saOld := "	l := len(f.a)\n	if idx >= l {\n		tmp := make([]value, idx+1)\n		copy(tmp, f.a)\n\n		for i := l; i < idx; i++ {\n			ctx := context{parent: parent, field: fmt.Sprintf(\"%d\", i)}\n			tmp[i] = &cfgNil{cfgPrimitive{ctx, nil}}\n		}\n\n		f.a = tmp\n	}\n\n	f.a[idx] = v\n}\n"
+	saNew := "	if grown, ok := padTo(f.a, idx, parent); ok {\n		f.a = grown\n	}\n\n	f.a[idx] = v\n}\n\nfunc padTo(a []value, idx int, parent value) ([]value, bool) {\n	l := len(a)\n	if idx < l {\n		return nil, false\n	}\n\n	tmp := make([]value, idx+1)\n	copy(tmp, a)\n	for i := l; i < idx; i++ {\n		ctx := context{parent: parent, field: fmt.Sprintf(\"%d\", i)}\n		tmp[i] = &cfgNil{cfgPrimitive{ctx, nil}}\n	}\n	return tmp, true\n}\n"
+	addControl(control{Prop: "C07", Name: "setat-growth-in-a-helper", Rule: "R07a", Kind: "refactor",
+		File: "ucfg.go", Old: saOld, New: saNew})
+	addControl(control{Prop: "C07", Name: "setat-growth-in-a-helper-one-short", Rule: "R07a", Kind: "mutant",
+		File: "ucfg.go", Old: saOld, New: strings.Replace(saNew, "	if idx < l {\n		return nil, false\n	}\n", "	if idx <= l {\n		return nil, false\n	}\n", 1), Expect: "R07a/(*ucfg.fields).setAt"})
+}
+
+func init() {
+	cfOld := "	switch baseType.Kind() {\n	case reflect.Map, reflect.Struct, reflect.Array:\n		if !old.CanSet() {\n			// a value held by an interface or a map is not addressable: unpack\n			// into a copy, the caller stores the result in its place\n			tmp := reflect.New(old.Type()).Elem()\n			tmp.Set(old)\n			old, oldValue = tmp, tmp\n		}\n	}\n\n	switch baseType.Kind() {\n	case reflect.Map:\n		sub, err := val.toConfig(opts.opts)\n		if err != nil {\n			return reflect.Value{}, raiseExpectedObject(opts.opts, val)\n		}\n		return old, reifyMap("
+	cfNew := "	kind := baseType.Kind()\n	isContainer := kind == reflect.Map || kind == reflect.Struct || kind == reflect.Array\n	if isContainer && !old.CanSet() {\n		tmp := reflect.New(old.Type()).Elem()\n		tmp.Set(old)\n		old, oldValue = tmp, tmp\n	}\n\n	switch kind {\n	case reflect.Map:\n		sub, err := val.toConfig(opts.opts)\n		if err != nil {\n			return reflect.Value{}, raiseExpectedObject(opts.opts, val)\n		}\n		return old, reifyMap("
+	addControl(control{Prop: "C07", Name: "container-kinds-in-a-flag", Rule: "R07g", Kind: "refactor",
+		File: "reify.go", Old: cfOld, New: cfNew})
+	addControl(control{Prop: "C07", Name: "container-kinds-in-a-flag-without-arrays", Rule: "R07g", Kind: "mutant",
+		File: "reify.go", Old: cfOld, New: strings.Replace(cfNew, " || kind == reflect.Array", "", 1), Expect: "R07g/"})
+}
+
+func init() {
+	// ---------------- rules added with round 7 ----------------
+	addControl(control{Prop: "C03", Name: "string-integers-lose-their-fraction", Rule: "R03e", Kind: "mutant", Quick: true,
+		File: "types.go", Old: "func (c *cfgString) toInt(*options) (int64, error)       { return strconv.ParseInt(c.s, 0, 64) }", New: "func (c *cfgString) toInt(*options) (int64, error) {\n	return strconv.ParseInt(strings.TrimSuffix(c.s, \".0\"), 0, 64)\n}", Expect: "R03e/(*ucfg.cfgString).toInt"})
+	addControl(control{Prop: "C03", Name: "string-integer-text-in-a-local", Rule: "R03e", Kind: "refactor",
+		File: "types.go", Old: "func (c *cfgString) toInt(*options) (int64, error)       { return strconv.ParseInt(c.s, 0, 64) }", New: "func (c *cfgString) toInt(*options) (int64, error) {\n	text := c.s\n	n, err := strconv.ParseInt(text, 0, 64)\n	if err != nil {\n		return 0, err\n	}\n	return n, nil\n}"})
+	idxOld := "	arr := cfg.fields.array()\n	if i.i < 0 || i.i >= len(arr) {\n		return nil, raiseMissing(cfg, i.String())\n	}\n	return arr[i.i], nil\n"
+	idxNew := "	arr := cfg.fields.array()\n	if i.i < 0 || i.i >= len(arr) {\n		if v, ok := cfg.fields.get(i.String()); ok && opts.enableNumKeys {\n			return v, nil\n		}\n		return nil, raiseMissing(cfg, i.String())\n	}\n	return arr[i.i], nil\n"
+	addControl(control{Prop: "C12", Name: "index-answered-from-the-dictionary", Rule: "R12h", Kind: "mutant", Quick: true,
+		File: "path.go", Old: idxOld, New: idxNew, Expect: "R12h/(ucfg.idxField).GetValue"})
+	addControl(control{Prop: "C20", Name: "index-answered-from-the-dictionary", Rule: "R20f", Kind: "mutant", Quick: true,
+		File: "path.go", Old: idxOld, New: idxNew, Expect: "R20f/(ucfg.idxField).GetValue"})
+	addControl(control{Prop: "C14", Name: "unpacker-error-extracted-with-errors-as", Rule: "R14e", Kind: "mutant", Quick: true,
+		File: "unpack.go", Old: "	if err != nil {\n		return raisePathErr(err, meta, \"\", ctx.path(\".\"))\n	}\n	return nil\n}\n", New: "	if err != nil {\n		var own Error\n		if errors.As(err, &own) && own.Path() != \"\" {\n			return own\n		}\n		return raisePathErr(err, meta, \"\", ctx.path(\".\"))\n	}\n	return nil\n}\n",
+		More: []edit{{"unpack.go", "import \"reflect\"\n", "import (\n	\"errors\"\n	\"reflect\"\n)\n"}}, Expect: "R14e/ucfg.unpackWith/errors.As"})
+	addControl(control{Prop: "C19", Name: "add-merges-a-nil-config", Rule: "R19f", Kind: "mutant", Quick: true,
+		File: "cfgutil/cfgutil.go", Old: "	if cfg != nil {\n		err = c.config.Merge(cfg, c.opts...)\n		if err != nil {\n			c.err = err\n		}\n	}\n", New: "	err = c.config.Merge(cfg, c.opts...)\n	if err != nil {\n		c.err = err\n	}\n", Expect: "R19f/(*cfgutil.Collector).Add"})
+	addControl(control{Prop: "C19", Name: "add-returns-early-for-a-nil-config", Rule: "R19f", Kind: "refactor",
+		File: "cfgutil/cfgutil.go", Old: "	if cfg != nil {\n		err = c.config.Merge(cfg, c.opts...)\n		if err != nil {\n			c.err = err\n		}\n	}\n", New: "	if cfg == nil {\n		return nil\n	}\n	err = c.config.Merge(cfg, c.opts...)\n	if err != nil {\n		c.err = err\n	}\n"})
+	addControl(control{Prop: "C15", Name: "flattened-keys-relative-to-the-node", Rule: "R15i", Kind: "mutant", Quick: true,
+		File: "ucfg.go", Old: "		ctx := v.Context()\n		return append(keys, ctx.path(opts.pathSep))\n", New: "		ctx := v.Context()\n		return append(keys, ctx.field)\n", Expect: "R15i/ucfg.appendFlattenedKeys"})
+	addControl(control{Prop: "C17", Name: "float-parse-behind-a-spelling-filter", Rule: "R17d", Kind: "mutant", Quick: true,
+		File: "parse/parse.go", Old: "	if n, err := strconv.ParseFloat(content, 64); err == nil {\n		return n, nil\n	}\n", New: "	if !strings.ContainsAny(content, \"EXxPpIiNn\") {\n		if n, err := strconv.ParseFloat(content, 64); err == nil {\n			return n, nil\n		}\n	}\n", Expect: "R17d/(*parse.flagParser).parsePrimitive/nothing else in front of the float parse"})
+	addControl(control{Prop: "C18", Name: "whole-numbers-read-as-booleans", Rule: "R18i", Kind: "mutant", Quick: true,
+		File: "types.go", Old: "func (c *cfgInt) toInt(*options) (int64, error)           { return c.i, nil }", New: "func (c *cfgInt) toInt(*options) (int64, error)           { return c.i, nil }\nfunc (c *cfgInt) toBool(*options) (bool, error) {\n	if c.i == 0 || c.i == 1 {\n		return c.i == 1, nil\n	}\n	return false, ErrTypeMismatch\n}", Expect: "R18i/ucfg.numeric nodes/toBool"})
+	addControl(control{Prop: "C04", Name: "min-accepts-what-is-not-below", Rule: "R04h", Kind: "mutant", Quick: true,
+		File: "validator.go", Old: "		if val.Float() >= min {\n			return nil\n		}\n", New: "		if !(val.Float() < min) {\n			return nil\n		}\n", Expect: "R04h/ucfg.validateMin"})
+	addControl(control{Prop: "C04", Name: "min-bound-test-swapped", Rule: "R04h", Kind: "refactor",
+		File: "validator.go", Old: "		if val.Float() >= min {\n			return nil\n		}\n", New: "		if min <= val.Float() {\n			return nil\n		}\n"})
+	addControl(control{Prop: "C07", Name: "map-keys-of-any-interface-type", Rule: "R07o", Kind: "mutant", Quick: true,
+		File: "reify.go", Old: "	if to.Type().Key().Kind() != reflect.String {\n", New: "	if k := to.Type().Key().Kind(); k != reflect.String && k != reflect.Interface {\n", Expect: "R07o/ucfg.reifyMap"})
+	addControl(control{Prop: "C07", Name: "list-element-stored-without-its-pointers", Rule: "R07p", Kind: "mutant", Quick: true,
+		File: "reify.go", Old: "				to.Index(idx).Set(pointerize(to.Type().Elem(), v.Type(), v))\n", New: "				to.Index(idx).Set(v)\n", Expect: "R07p/ucfg.reifyDoArray"})
+	addControl(control{Prop: "C07", Name: "setchild-wraps-nil", Rule: "R07q", Kind: "mutant", Quick: true,
+		File: "getset.go", Old: "	if value == nil {\n		return raiseNil(ErrNilConfig)\n	}\n	return c.setField(name, idx, cfgSub{c: value}, opts)\n", New: "	return c.setField(name, idx, cfgSub{c: value}, opts)\n", Expect: "R07q/(*ucfg.Config).SetChild"})
+	addControl(control{Prop: "C13", Name: "plain-values-replace-what-an-interface-holds", Rule: "R13f", Kind: "mutant", Quick: true,
+		File: "reify.go", Old: "	baseType := chaseTypePointers(old.Type())\n\n	if baseType.Kind() == reflect.Struct && tConfig.ConvertibleTo(baseType) {\n		sub, err := val.toConfig(opts.opts)\n		if err != nil {\n			return reflect.Value{}, raiseExpectedObject(opts.opts, val)\n		}\n\n		if t == baseType {", New: "	baseType := chaseTypePointers(old.Type())\n\n	if oldValue.Kind() == reflect.Interface && !isSub(val) && !isNil(val) {\n		return reifyValue(opts, oldValue.Type(), val)\n	}\n\n	if baseType.Kind() == reflect.Struct && tConfig.ConvertibleTo(baseType) {\n		sub, err := val.toConfig(opts.opts)\n		if err != nil {\n			return reflect.Value{}, raiseExpectedObject(opts.opts, val)\n		}\n\n		if t == baseType {", Expect: "R13f/ucfg.reifyMergeValue"})
+	addControl(control{Prop: "C16", Name: "handling-tree-written-under-the-callers-max-index", Rule: "R16f", Kind: "mutant", Quick: true,
+		File: "opts.go", Old: "			o.fieldHandlingTree.merge(table, PathSep(o.pathSep))\n", New: "			o.fieldHandlingTree.merge(table, PathSep(o.pathSep), MaxIdx(o.maxIdx))\n", Expect: "R16f/ucfg.fieldHandlingTree"})
+}
+
+func init() {
+	addControl(control{Prop: "C06", Name: "reader-walks-visible-fields", Rule: "R06j", Kind: "mutant",
+		File: "validator.go", Old: "	numField := val.NumField()\n	for i := 0; i < numField; i++ {\n		fInfo, skip, err := accessField(val, i, opts)\n", New: "	numField := len(reflect.VisibleFields(val.Type()))\n	for i := 0; i < numField && i < val.NumField(); i++ {\n		fInfo, skip, err := accessField(val, i, opts)\n", Expect: "R06j/writer/reader"})
+}
+
+func init() {
+	// ---------------- sibling families stated after round 7 ----------------
+	addControl(control{Prop: "C12", Name: "setuint-stores-a-signed-node", Rule: "R12k", Kind: "mutant", Quick: true,
+		File: "getset.go", Old: "	return c.setField(name, idx, &cfgUint{u: value}, opts)\n", New: "	return c.setField(name, idx, &cfgInt{i: int64(value)}, opts)\n", Expect: "R12k/(*ucfg.Config).SetUint"})
+	addControl(control{Prop: "C12", Name: "setint-through-the-constructor", Rule: "R12k", Kind: "refactor",
+		File: "getset.go", Old: "	return c.setField(name, idx, &cfgInt{i: value}, opts)\n", New: "	return c.setField(name, idx, newInt(context{}, nil, value), opts)\n"})
+	addControl(control{Prop: "C12", Name: "int-getter-through-the-unsigned-accessor", Rule: "R12j", Kind: "mutant",
+		File: "getset.go", Old: "	i, fail := v.toInt(O)\n	return i, convertErr(O, v, fail, \"int\")\n", New: "	u, fail := v.toUint(O)\n	return int64(u), convertErr(O, v, fail, \"int\")\n", Expect: "R12j/(*ucfg.Config).Int"})
+	addControl(control{Prop: "C12", Name: "has-looks-into-the-dictionary", Rule: "R12i", Kind: "mutant",
+		File: "path.go", Old: "func (p cfgPath) Has(cfg *Config, opt *options) (bool, Error) {\n	fields := p.fields\n", New: "func (p cfgPath) Has(cfg *Config, opt *options) (bool, Error) {\n	fields := p.fields\n	if len(fields) == 1 {\n		if _, ok := cfg.fields.get(fields[0].String()); ok {\n			return true, nil\n		}\n	}\n", Expect: "R12i/(ucfg.cfgPath).Has"})
+	addControl(control{Prop: "C10", Name: "unsigned-copied-as-signed", Rule: "R10e", Kind: "mutant", Quick: true,
+		File: "types.go", Old: "func (c *cfgUint) cpy(ctx context) value                   { return newUint(ctx, c.meta(), c.u) }", New: "func (c *cfgUint) cpy(ctx context) value                   { return newInt(ctx, c.meta(), int64(c.u)) }", Expect: "R10e/(*ucfg.cfgUint).cpy"})
+	addControl(control{Prop: "C10", Name: "string-copy-with-the-payload-in-a-local", Rule: "R10e", Kind: "refactor",
+		File: "types.go", Old: "func (c *cfgString) cpy(ctx context) value { return newString(ctx, c.meta(), c.s) }", New: "func (c *cfgString) cpy(ctx context) value {\n	text := c.s\n	return newString(ctx, c.meta(), text)\n}"})
+}
